@@ -277,7 +277,7 @@ pub fn run(ctx: &Ctx) -> Outcome {
         let mut rng = Rng::new(rs);
         let mut cfg = super::c01::draw(&mut rng, ctx.thorough);
         cfg.set_facade = false;
-        cfg.mix = Mix { get: 8, get_kv: 2, contains: 2, insert: 14, try_insert: 6, remove: 10, remove_entry: 2, compute_some: 30, compute_none: 10, compute_cond: 14, retain: 0, retain_force: 0, clear: 0, reserve: 1, iterate: 0 };
+        cfg.mix = Mix { get: 8, get_kv: 2, contains: 2, insert: 14, try_insert: 6, remove: 10, remove_entry: 2, compute_some: 30, compute_none: 10, compute_cond: 14, retain: 0, retain_force: 0, clear: 0, reserve: 1, iterate: 0, panic_compute: 0, panic_retain: 0 };
         cfg.nkeys = cfg.nkeys.min(16);
         let r = run_round(&cfg, rs);
         round += 1;
